@@ -31,7 +31,9 @@ META = {
             "proved: delivered bytes = arrived bytes, a cut is an error and never io.EOF) (oracle: each connection's bytes are a prefix of "
             "what was written on that very connection); the corpus runs once more under the Go race detector; with 1..300 sessions of one endpoint open and silent "
             "(along every channel capacity found in the code) one more active session must deliver both of its tagged "
-            "streams - proved for handlers that hold nothing shared across the blocking conn.Read (extracted), refuted for "
+            "streams, and a read that stays pending while 2^17 newer calls pass over the control connection must still "
+            "deliver the application's reply (eviction rule and numeric literals of the RPC path extracted; proved that no "
+            "step depends on id distance, a windowed eviction refuted) - proved for handlers that hold nothing shared across the blocking conn.Read (extracted), refuted for "
             "a bounded semaphore.",
     "note": "Partial (runtime): the interleaving of the two copy loops, TCP segmentation, websocket buffering and the "
             "message reader's chunking are schedule parameters of the model, not derived from the Go runtime; the close "
@@ -294,6 +296,25 @@ def impl_oracle(c):
                     "data: %s" % (p["len"], p["cap"], p["n"], p["view_ok"]))
         if p["len"] > p["cap"] and p["n"] >= 0:
             return ("tunnel-read-overrun", "a read reply of %d bytes was accepted into a %d-byte buffer" % (p["len"], p["cap"]))
+    elif s == "age":
+        g = c["age"]
+        if g.get("setup_err"):
+            return ("e2e-setup", "could not run the pending-read case: %s" % g["setup_err"])
+        if not g["c2a"]["complete"]:
+            return ("e2e-age-setup", "the application did not get the client's first bytes: %s" % g["c2a"])
+        if g["call_errs"]:
+            return ("e2e-age-calls-failed:%s" % g["mode"], "%d of %d calls over the control connection failed while a read was "
+                    "pending (first: %s)" % (g["call_errs"], g["calls"], g.get("first_err")))
+        d = g["reply"]
+        if not d["prefix_ok"]:
+            return ("e2e-age-corrupt:%s" % g["mode"], "the reply read after %d newer calls is not what the application wrote "
+                    "(first wrong word at offset %d)" % (g["calls"], d["first_diff"]))
+        if not d["complete"]:
+            return ("e2e-age-read-lost:%s" % g["mode"],
+                    "%s mode: one session, the application silent towards the client (its read call pending) while %d newer "
+                    "calls passed over the same control connection in %d ms; neither side closed; then the application wrote "
+                    "%d bytes: the client got %d of them and its read ended with %s"
+                    % (g["mode"], g["calls"], g["ms"], d["sent"], d["received"], g.get("client_end") or d.get("err")))
     elif s == "idle":
         g = c["idle"]
         if g.get("setup_err"):
@@ -394,10 +415,25 @@ def run(ck):
     if ck.thorough and proofs_ok:
         ck.coqchk(["Verif.Props.C01"])
 
+    # the age stream pushes call ids past every numeric bound the translator found in the RPC path
+    # (and past every power of two up to 2^17)
+    agecalls = (1 << 17) + 1000
+    try:
+        import re
+        txt = open(vlib.COQ + "/theories/Gen/StreamConsts.v").read()
+        blk = txt[txt.index("gen_rpc_int_literals"):]
+        blk = blk[:blk.index("].")]
+        for v in re.findall(r':(\d+)"', blk):
+            if 256 <= int(v) <= (1 << 18):
+                agecalls = max(agecalls, int(v) + 1000)
+    except Exception:
+        pass
+    ck.coverage["age_calls"] = agecalls
+
     binp = ck.build_harness("c01")
     cases = []
     if binp:
-        cmd = [binp, "-seed", str(ck.seed), "-n", str(ncases), "-e2e", str(e2e_n), "-big"] + (["-huge"] if ck.thorough else [])
+        cmd = [binp, "-seed", str(ck.seed), "-n", str(ncases), "-e2e", str(e2e_n), "-big", "-agecalls", str(agecalls)] + (["-huge"] if ck.thorough else [])
         rc, out, err = vlib.sh2(cmd, timeout=2400)
         if rc != 0:
             ck.broken.append({"what": "harness run failed", "detail": err[-1500:]})
@@ -410,7 +446,7 @@ def run(ck):
         # once more under the race detector
         rbin = ck.build_harness("c01", race=True)
         if rbin:
-            rc, out, err = vlib.sh2([rbin, "-child", "-seed", str(ck.seed), "-n", "1" if not ck.thorough else "120",
+            rc, out, err = vlib.sh2([rbin, "-child", "-agecalls", "3000", "-seed", str(ck.seed), "-n", "1" if not ck.thorough else "120",
                                      "-e2e", "0" if not ck.thorough else "30"], timeout=1200)
             nrace = sum(1 for line in out.splitlines() if line.startswith("{"))
             ck.coverage["race_detector_cases"] = nrace
@@ -430,7 +466,10 @@ def run(ck):
         if body and body.get("skipped"):
             ck.coverage["e2e_skipped_after_timeouts"] = ck.coverage.get("e2e_skipped_after_timeouts", 0) + 1
             continue
-        if s == "idle" and body:
+        if s == "age" and body:
+            ck.count("age-" + body["mode"], key=("age", body["mode"], body["calls"]), trivial=False)
+            ck.coverage["age_ms"] = body.get("ms")
+        elif s == "idle" and body:
             for p in body.get("probes") or []:
                 ck.count("idle-" + body["mode"], key=("idle", body["mode"], p["idle"]), trivial=False)
         elif s == "conc" and body:
